@@ -87,38 +87,46 @@ Section Hier.
   Proof. simpl. unfold tord_body. now rewrite ty_eqb_refl. Qed.
 
   (* ---- hooks answer exactly on [answers] ---- *)
+  Lemma dep_order_answers to s t o : dep_order to s t o <> Some None.
+  Proof.
+    unfold dep_order. destruct (is_dep o).
+    - destruct (to (dep_bound t) (dep_bound o)) as [[]|]; discriminate.
+    - destruct (s o (dep_bound t)) as [[|]|]; try discriminate. destruct (s (dep_bound t) o) as [[|]|]; discriminate.
+  Qed.
+
   Lemma hook_answers_some to s t o q : hook_order to s t o = Some (Some q) -> answers t o = true.
-  Proof. destruct t; simpl; try discriminate; auto. destruct o; try discriminate; auto. Qed.
+  Proof. destruct t; simpl; try discriminate; auto. Qed.
 
   Lemma hook_answers_none to s t o : hook_order to s t o = Some None -> answers t o = false.
   Proof.
-    destruct t; simpl; auto.
+    destruct t; cbn [hook_order answers]; auto; try (intros H; exfalso; exact (dep_order_answers _ _ _ _ H)).
     - destruct (omapM _ ts); discriminate.
     - destruct (omapM _ ts); discriminate.
     - destruct (ty_eqb o (Cls c)); [discriminate|]. destruct (to (Cls c) o); discriminate.
-    - destruct (is_dep o); [destruct (to t (dep_bound o)) as [[]|]; discriminate|].
-      destruct (s o t) as [[|]|]; try discriminate. destruct (s t o) as [[|]|]; discriminate.
-    - destruct (is_dep o); [destruct (to t (dep_bound o)) as [[]|]; discriminate|].
-      destruct (s o t) as [[|]|]; try discriminate. destruct (s t o) as [[|]|]; discriminate.
-    - destruct (is_dep o); [destruct (to t (dep_bound o)) as [[]|]; discriminate|].
-      destruct (s o t) as [[|]|]; try discriminate. destruct (s t o) as [[|]|]; discriminate.
-    - destruct o; auto. destruct (Nat.eqb _ _); [|discriminate]. destruct (omapM2 to ts ts0); discriminate.
+    - destruct o; try (intros H; exfalso; exact (dep_order_answers _ _ _ _ H)).
+      destruct (Nat.eqb _ _); [|discriminate]. destruct (omapM2 to ts ts0); discriminate.
   Qed.
 
-  Definition is_dep3 (t : ty) : bool := match t with Lit _ _ | Fn _ _ _ | TFn _ _ _ => true | _ => false end.
+  Definition is_dep3 (t : ty) : bool := is_dep t.
+  Definition both_prod (t o : ty) : bool := match t, o with Prod _ _, Prod _ _ => true | _, _ => false end.
 
   Lemma hook_dep3 to s t o :
-    is_dep3 t = true -> is_dep o = true ->
-    hook_order to s t o =
+    is_dep3 t = true -> both_prod t o = false ->
+    hook_order to s t o = dep_order to s t o.
+  Proof. destruct t; try discriminate; intros _ Hb; cbn [hook_order]; try reflexivity. destruct o; try reflexivity. discriminate. Qed.
+
+  Lemma dep_order_dep to s t o :
+    is_dep o = true ->
+    dep_order to s t o =
       match to (dep_bound t) (dep_bound o) with
       | None => None
       | Some SAME => Some (Some (if dep_lt t o then LESS else if dep_lt o t then MORE else NONE))
       | Some r => Some (Some r)
       end.
-  Proof. destruct t; try discriminate; intros _ Ho; cbn [hook_order dep_bound]; rewrite Ho; reflexivity. Qed.
+  Proof. intros Ho. unfold dep_order. now rewrite Ho. Qed.
 
   Lemma is_dep3_dep t : is_dep3 t = true -> is_dep t = true.
-  Proof. destruct t; auto. Qed.
+  Proof. auto. Qed.
 
   (* ---- class fragment ---- *)
   Lemma cls_order_opp c d : cls_order d c = opposite (cls_order c d).
@@ -187,9 +195,8 @@ Section Hier.
     rewrite He in H. now injection H as <-.
   Qed.
 
-  (* Literal / Dependent / fast-check types are strictly below their bound (when the bound is not itself dependent).
-     NB: this is false for Prod (tuple[...]): ProductType.__type_order__ answers NotImplemented against a
-     non-tuple type and the issubclass fallback finds the two unrelated -- see tord_prod_bound_refuted. *)
+  (* every value-dependent type (Literal, Dependent, the element checks, tuple[...] since the repair of KF-24) is strictly
+     below its bound, when the bound is not itself dependent *)
   Theorem tord_dep_bound n t r :
     is_dep3 t = true -> is_dep (dep_bound t) = false ->
     tord (S (S n)) t (dep_bound t) = Some r -> r = LESS.
@@ -199,8 +206,8 @@ Section Hier.
     { apply ty_eqb_neq. intros E. rewrite <- E in Db. rewrite (is_dep3_dep _ D3) in Db. discriminate. }
     rewrite Hne in H.
     assert (Hh : hook_order (tord (S n)) (subck (S n)) t (dep_bound t) = Some (Some LESS)).
-    { destruct t; try discriminate D3; cbn [hook_order dep_bound] in *; rewrite Db;
-        rewrite subck_S; unfold subck_body; rewrite ty_eqb_refl; reflexivity. }
+    { rewrite hook_dep3; [|exact D3|destruct t; try discriminate D3; try reflexivity; simpl in *; destruct t; try reflexivity; discriminate].
+      unfold dep_order. rewrite Db. rewrite subck_S. unfold subck_body. rewrite ty_eqb_refl. reflexivity. }
     rewrite Hh in H. now injection H as <-.
   Qed.
 
@@ -269,14 +276,15 @@ Section Hier.
 
   Lemma hook_dep_mirror n :
     (forall t1 t2 r1 r2, msym t1 t2 = true -> tord n t1 t2 = Some r1 -> tord n t2 t1 = Some r2 -> r2 = opposite r1) ->
-    forall t1 t2 q1 q2, is_dep3 t1 = true -> is_dep3 t2 = true ->
+    forall t1 t2 q1 q2, is_dep3 t1 = true -> is_dep3 t2 = true -> both_prod t1 t2 = false ->
       msym (dep_bound t1) (dep_bound t2) = true ->
       hook_order (tord n) (subck n) t1 t2 = Some (Some q1) ->
       hook_order (tord n) (subck n) t2 t1 = Some (Some q2) -> q2 = opposite q1.
   Proof.
-    intros IH t1 t2 q1 q2 D1 D2 Hm E12 E21.
-    rewrite (hook_dep3 _ _ _ _ D1 (is_dep3_dep _ D2)) in E12.
-    rewrite (hook_dep3 _ _ _ _ D2 (is_dep3_dep _ D1)) in E21.
+    intros IH t1 t2 q1 q2 D1 D2 Hbp Hm E12 E21.
+    assert (Hbp' : both_prod t2 t1 = false) by (destruct t1, t2; auto).
+    rewrite (hook_dep3 _ _ _ _ D1 Hbp), (dep_order_dep _ _ _ _ D2) in E12.
+    rewrite (hook_dep3 _ _ _ _ D2 Hbp'), (dep_order_dep _ _ _ _ D1) in E21.
     destruct (tord n (dep_bound t1) (dep_bound t2)) as [o12|] eqn:Eb12; [|discriminate E12].
     destruct (tord n (dep_bound t2) (dep_bound t1)) as [o21|] eqn:Eb21; [|discriminate E21].
     assert (Ho : o21 = opposite o12) by (eapply IH; eauto). subst o21.
@@ -300,7 +308,7 @@ Section Hier.
       destruct t1; destruct t2; try (simpl in E12; discriminate E12); try (simpl in E21; discriminate E21);
         simpl in Hm; try discriminate Hm;
         try (injection H1 as <-; injection H2 as <-;
-             eapply (hook_dep_mirror n IH); [| | |exact E12|exact E21]; try reflexivity; exact Hm).
+             eapply (hook_dep_mirror n IH); [| | | |exact E12|exact E21]; try reflexivity; exact Hm).
       (* Prod, Prod *)
       rewrite msym_all2_eq in Hm. cbn [hook_order] in E12, E21.
       rewrite (Nat.eqb_sym (length ts0) (length ts)) in E21.
